@@ -116,7 +116,7 @@ theorem sendSeq_sink_shape : ∀ (ms : List Bytes) (st : SeqSt), st.poisoned = f
         · rcases h2 with h2 | ⟨m', hm', j', hj1, hj2, hj3⟩
           · exact Or.inl h2
           · exact Or.inr ⟨m', by simp [hm'], j', hj1, hj2, hj3⟩
-      · have hfail : (writeAll m st.evs 0 st.sink 0).out = .brokenPipe ∨ (writeAll m st.evs 0 st.sink 0).out = .err := by
+      · have hfail : (writeAll m st.evs 0 st.sink 0).out = .brokenPipe ∨ (∃ k, (writeAll m st.evs 0 st.sink 0).out = .err k) := by
           cases h : (writeAll m st.evs 0 st.sink 0).out <;> simp_all
         obtain ⟨hpo, hjlt⟩ := hf hfail
         simp only [hdone, if_false, completed]
